@@ -1,9 +1,12 @@
 (** C37/ReaderModel.v — transcription of [emmylua_parser::Reader]
-    (crates/emmylua_parser/src/text/reader.rs), function for function, quirks included:
-    ['\0'] is the EOF sentinel ([bump] does nothing and [is_eof] answers true on a real NUL
-    character), [new_with_range] asserts [text.len() == range.length], slices of the text are
-    [None] (a Rust panic) off a character boundary.
-    Executable definitions only.  Offsets are unbounded [N] (Rust: usize). *)
+    (crates/emmylua_parser/src/text/reader.rs as of commit 89e8607), function for function:
+    end of input is decided by POSITION ([is_eof]: pos + len >= text.len(); a NUL character
+    in the text is an ordinary character, ['\0'] is only what [current_char] returns past the
+    end), [new_with_range] asserts [text.len() == range.length], slices of the text are [None]
+    (a Rust panic) off a character boundary.
+    Executable definitions only.  Offsets are unbounded [N] (Rust: usize).
+    (Base/Reader.v, written later for C01, abstracts the text away; C37 needs the text itself —
+    [current_text], [tail_text], sub-readers over a slice, character boundaries — hence this file.) *)
 From EV Require Export Base.Text.
 Local Open Scope N_scope.
 
@@ -43,11 +46,12 @@ Definition new_with_range (t : text) (start len : N) : res reader :=
 (** [Reader::new] *)
 Definition new_reader (t : text) : res reader := new_with_range t 0 (bytes t).
 
-Definition is_eof (r : reader) : bool := r_cur r =? EOF.
+(** [Reader::is_eof]: [current_buffer_byte_pos + current_buffer_byte_len >= text.len()] *)
+Definition is_eof (r : reader) : bool := bytes (r_text r) <=? r_pos r + r_blen r.
 
 (** [Reader::bump] *)
 Definition bump (r : reader) : reader :=
-  if r_cur r =? EOF then r
+  if is_eof r then r
   else
     let '(n, s) := chars_next (r_chars r) in
     {| r_text := r_text r; r_start := r_start r; r_len := r_len r; r_chars := s;
